@@ -453,7 +453,7 @@ def run_r5(ctx, rule):
 
 
 # ---- R6 / R7 / R8 -------------------------------------------------------------------------------
-def run_r6(ctx, rule):
+def run_r6(ctx, rule, inclusive_only=False):
     facts = ctx.facts
     f = fnn(facts, TOK_A + "delta_code")
     sy = sym(f)
@@ -464,8 +464,13 @@ def run_r6(ctx, rule):
                 e = sy.rvalue(s["rv"])
                 a, d = e[2], e[3]
                 found = True
-                g = guards.holds(f, bi, lambda fa: guards.cmp_matches(fa, "Le", lambda x: x == d, lambda x: x == a))
-                rule.check(bool(g) and a == ("l", 2), "delta_code/guard", "code - delta only behind delta <= code (%s)" % (guards.show_fact(f, g[1]) if g else "unguarded"), f.loc(bi))
+                g = guards.holds(f, bi, lambda fa: guards.cmp_implies(fa, "Le", lambda x: x == d, lambda x: x == a))
+                if not inclusive_only:
+                    rule.check(bool(g) and a == ("l", 2), "delta_code/guard", "code - delta only behind delta <= code (%s)" % (guards.show_fact(f, g[1]) if g else "unguarded"), f.loc(bi))
+                # .. and a delta equal to its reference code is accepted: it encodes the constant literal 0, which is a legal
+                # gate input and which the writer emits as exactly this delta
+                gi = guards.holds(f, bi, lambda fa: guards.cmp_matches(fa, "Le", lambda x: x == d, lambda x: x == a))
+                rule.check(bool(gi) or not g, "delta_code/inclusive", "a delta is rejected only when it is larger than its reference code: delta == code is the constant 0 (%s)" % (guards.show_fact(f, g[1]) if g else "unguarded"), f.loc(bi))
     for bb, t in f.calls():
         cn = norm(util.cname(t))
         if cn.endswith("::checked_sub"):
@@ -477,6 +482,8 @@ def run_r6(ctx, rule):
             rule.bad("delta_code/guard", "delta_code subtracts with %s: a delta above its reference code must be an error" % cn.rsplit("::", 1)[-1], f.loc(bb))
     if not found:
         rule.bad("delta_code/sub", "anchor missing: subtraction in delta_code", kind="anchor-missing")
+    if inclusive_only:
+        return
     # binary_uint: the shift-back test rejects values that do not fit
     f = fnn(facts, TOK_A + "binary_uint")
     sy = sym(f)
